@@ -130,6 +130,14 @@ int main(int argc, char **argv)
     const bool alignStop = sc["alignStop"].toBool();
     auto idle = [](int n) { for (volatile int i = 0; i < n; ++i) { } };
     unsigned lcg = 12345u;
+    // cycleRacer: another thread keeps logging through all the cycles, so every one of the (many) stops and starts happens under
+    // traffic: a log call that is inside process() while the stop runs must end up delivered (synchronously or by the worker)
+    std::atomic<bool> cycleRacerStop { false };
+    std::thread cycleRacer;
+    if (config != "oneline" && sc["cycleRacer"].toBool() && !alignStop && sc["cycles"].toInt() > 0)
+        cycleRacer = std::thread([&] {
+            for (int i = 0; !cycleRacerStop.load(); i++) { s.log(); if (i % 16 == 15) std::this_thread::yield(); }
+        });
     if (config != "oneline")
         for (int c = 0; c < sc["cycles"].toInt(); c++) {
             s.toOwnThread();
@@ -151,6 +159,8 @@ int main(int argc, char **argv)
             s.reset();
             for (int i = 0; i < cycleMsgs; i++) s.log();
         }
+
+    if (cycleRacer.joinable()) { cycleRacerStop = true; cycleRacer.join(); }
 
     // ---- go asynchronous ----
     if (config == "oneline") s.logger->configure(sc["dir"].toString() + "/app.log"); // async = true is the default
